@@ -37,6 +37,25 @@ claim("C14", "exploration", SIM + "; reference block device with sparse disk, ou
       "VirtIOBlk over model/MMIO/PCI transports against a reference block device that checks the shape of every request; blocking and non-blocking API with several requests outstanding completed in scheduler-chosen order; status mapping, data integrity, capacity/RO/FLUSH negotiation.",
       "Blocking calls only with nothing else outstanding; sampling of histories.", "6/C14")
 
+claim("C15", "exploration", SIM + "; reference console owning a position-identifying byte stream, delivery moments chosen by the scheduler",
+      "Interleavings of recv(peek/pop), read, fill_buf+consume, read_ready, ack_interrupt and all send variants against a console device whose deliveries happen at scheduler-chosen points (incl. inside notify, at store hooks and in busy-wait iterations); stream equality, at-most-one receive buffer, re-post only after consumption, exact transmit contents.",
+      "Blocking reads only while bytes can still arrive; sampling of interleavings.", "6/C15")
+claim("C16", "exploration", SIM + "; reference NIC, conservation invariant after every operation",
+      "Raw and buffer-managing network drivers against a NIC that delivers into any posted buffer in bursts; exact frame/length checks both ways, header size by negotiated VERSION_1, receive-buffer conservation after every operation, readiness queries vs model.",
+      "Sampling of sequences; MRG_RXBUF never negotiated by the driver.", "6/C16")
+claim("C17", "exploration", SIM + "; reference peers with both credit windows in lock step, >4 GiB streams for counter wrap",
+      "Lock-step reference model of both credit windows for every connection; every transmitted packet is decoded and compared field by field; honest peers never lose data; separate fault batches (credit exceeded, window shrunk, malformed packets); long-stream batches wrap tx_cnt and fwd_cnt with data in flight.",
+      "Sampling; wrap batches sample payload bytes; one recorded known finding (re-request on a connection with unread data).", "6/C17")
+claim("C18", "exploration", SIM + "; connection-table reference model stepped in lock step, all 16 (peer, port) pairs observed after every operation",
+      "Histories of local operations and peer packets (incl. invalid/unknown/foreign) with a reference model of listening ports, connections, buffered data and shutdown state; events, errors, emitted packets and observable state compared after every operation; receive buffers returned after every poll.",
+      "Sampling of histories.", "6/C18")
+claim("C19", "exploration", SIM + "; event-source device completing driver-stocked buffers in any order and burst size",
+      "OwningQueue (several shapes, handler succeeding/declining/failing, lying lengths), VirtIOInput and sound notifications: exactly-once in-order delivery with exact bytes, same token and same driver buffer re-posted (ledger identity), stock level after every poll, no delivery beyond the buffer.",
+      "Sampling; vsock receive path covered by C17/C18.", "6/C19")
+claim("C20", "exploration", SIM + "; reference GPU/sound/entropy/RTC/9P devices decoding every chain, error-response fault batches",
+      "Reference devices decode each command against structures transcribed from the specification (field positions, sizes, reserved fields, command order, backing pinned while attached, PCM chunking/ordering); success and error-response batches are separate; returned values compared with what the device reported, EDID via an independent decoder.",
+      "Resolutions bounded; after a device error the run ends; sampling.", "6/C20")
+
 TODO_REASON = "check not built yet in this round (planned, see DESIGN.md section 11); no claim is made"
 ALL = ["C%02d" % i for i in range(1, 21)]
 
